@@ -146,6 +146,7 @@ def run(ctx):
   C07.roll_gap_index(ctx, 'EXTRACT/roll-gap-index')
   C07.velocity_onsets(ctx, 'EXTRACT/velocity-onsets-only')
   step_order(ctx)
+  order_key_on_the_grid(ctx, 'EXTRACT/order-key-on-the-grid')
   C07.drum_gap(ctx, 'EXTRACT/drum-gap')
   C07.note_perf_limit(ctx, 'EXTRACT/note-limit')
   C07.metric_limit(ctx, 'EXTRACT/metric-limit')
@@ -222,6 +223,57 @@ def step_order(ctx):
              'the note-off events of one step are ordered by %s, the rank of the note they belong to in the list sorted by start time: to_sequence pairs a NOTE_OFF with the oldest open '
              'note of that pitch, so with two overlapping notes of one pitch the offsets change owner in the round trip and NOTE_OFF events of different pitches at that step come '
              'back in another order' % idx, construct='per-step order of NOTE_OFF events is independent of which note they close', definite=True)
+
+
+def order_key_on_the_grid(ctx, rule):
+  """Location-independent: the performance extractors emit the events of one step in the order of a sort over the notes.  The
+  round trip render -> quantize -> extract returns the same events only if that order is a function of what a rendered note
+  keeps: its quantized start / end step, its pitch, its velocity *bin*.  A key component that reads the raw start_time,
+  end_time or velocity orders two notes of one step (or of one bin) by information the rendered notes no longer carry; after
+  the round trip the later components decide instead and the events of that step come back in another order
+  (witness: findings/F29_performance_substep_order_demo.py)."""
+  GRID = ('quantized_start_step', 'quantized_end_step', 'pitch', 'instrument', 'program', 'is_drum')
+  RAW = ('start_time', 'end_time', 'velocity')
+  for fq in ('performance_lib:BasePerformance._from_quantized_sequence', 'performance_lib:NotePerformance._from_quantized_sequence'):
+    fi = ctx.func(fq)
+    fn = fi.node
+    keys = []
+    for c in U.calls_in(fn):
+      k = next((kw.value for kw in c.keywords if kw.arg == 'key'), None)
+      if k is not None and (dotted(c.func) == 'sorted' or (isinstance(c.func, ast.Attribute) and c.func.attr == 'sort')):
+        keys.append((c, U.expand_locals(fn, k, at=c)))
+    cons_base = 'the order of the events of one step is decided by quantities a rendered note keeps'
+    if not keys:
+      why = 'cannot classify: %s sorts nothing with a key function' % fi.qualname
+      ctx.ob(rule, fi, fn, False, why, construct=cons_base, unknown=why)
+      continue
+    for c, k in keys:
+      if not isinstance(k, ast.Lambda):
+        why = 'cannot classify: the sort key %s is not a lambda' % norm_text(k)[:60]
+        ctx.ob(rule, fi, c, False, why, construct=cons_base, unknown=why)
+        continue
+      v = k.args.args[0].arg
+      comps = k.body.elts if isinstance(k.body, ast.Tuple) else [k.body]
+      raw, unknown = [], []
+      for e in comps:
+        attrs = [x.attr for x in ast.walk(e) if isinstance(x, ast.Attribute) and isinstance(x.value, ast.Name) and x.value.id == v]
+        binned = isinstance(e, ast.Call) and (dotted(e.func) or '').endswith('velocity_to_bin')
+        if binned or (attrs and all(a in GRID for a in attrs)):
+          continue
+        if attrs and all(a in RAW + GRID for a in attrs):
+          raw.extend(a for a in attrs if a in RAW)
+        else:
+          unknown.append(norm_text(e))
+      if unknown:
+        why = 'cannot classify: sort key component %s' % ', '.join(unknown)
+        ctx.ob(rule, fi, c, False, why, construct=cons_base, unknown=why)
+      elif raw:
+        ctx.ob(rule, fi, c, False, 'the notes are sorted by %s: %s %s finer than what the events store (the step, the velocity bin), so two notes that fall into one step (or one bin) are '
+               'emitted in an order that rendering does not preserve - after render -> quantize -> extract the remaining key components decide and the events of that step are '
+               'permuted' % (norm_text(k.body), ', '.join(raw), 'is' if len(raw) == 1 else 'are'),
+               construct='%s; raw key components: %s' % (cons_base, ', '.join(raw)), definite=True)
+      else:
+        ctx.ob(rule, fi, c, True, 'every key component is a quantized step, the pitch or the velocity bin', construct=cons_base)
 
 
 def grid(ctx, fi, origins):
